@@ -6,6 +6,8 @@ import (
 	"sort"
 
 	"github.com/massnetorg/mass-core/blockchain"
+	"github.com/massnetorg/mass-core/consensus"
+	"github.com/massnetorg/mass-core/consensus/forks"
 	"github.com/massnetorg/mass-core/massutil"
 	"github.com/massnetorg/mass-core/wire"
 	"massnet.org/mass-wallet/config"
@@ -393,6 +395,30 @@ func (w *World) RelayContent(t string, l *Ledger) (*wire.MsgTx, bool) {
 			return nil, false
 		}
 		return spend([]*Coin{c}, out(c.Value-2*fee, w.S2Pk)), true
+	case "st": // unconfirmed staking deposit to A
+		for _, c := range l.ByOrder {
+			if c.SpentAt == 0 && c.Owner == nil && c.Class == ClassStd && string(c.Hash) == string(w.SHash) &&
+				!w.relayedSpends(c.OP) && w.NextSpendable(c, l) {
+				return spend([]*Coin{c}, out(5*Mass+1, stakingPk(A.Addrs[0].Hash, consensus.MinFrozenPeriod+1)), out(c.Value-5*Mass-1-fee, w.SPk)), true
+			}
+		}
+	case "bd": // unconfirmed binding deposit to A
+		for _, c := range l.ByOrder {
+			if c.SpentAt == 0 && c.Owner == nil && c.Class == ClassStd && string(c.Hash) == string(w.SHash) &&
+				!w.relayedSpends(c.OP) && w.NextSpendable(c, l) {
+				target := fixedHash(0x61)[:20]
+				if forks.EnforceMASSIP0002WarmUp(l.Height + 1) {
+					target = append(fixedHash(0x62)[:20], 0, 32)
+				}
+				return spend([]*Coin{c}, out(6*Mass+1, bindingPk(A.Addrs[1].Hash, target)), out(c.Value-6*Mass-1-fee, w.SPk)), true
+			}
+		}
+	case "sw": // unconfirmed withdrawal of a staking/binding deposit
+		for _, c := range l.ByOrder {
+			if c.SpentAt == 0 && c.Owner != nil && c.Owner.Wallet == "A" && c.Class != ClassStd && !w.relayedSpends(c.OP) && w.NextSpendable(c, l) {
+				return spend([]*Coin{c}, out(c.Value-fee, A.Addrs[0].Pk)), true
+			}
+		}
 	case "dup":
 		if len(w.Relayed) == 0 || w.RelayedKind[len(w.Relayed)-1] == "dup" {
 			return nil, false
@@ -424,6 +450,12 @@ func (w *World) PendingBlockContent(t string, l *Ledger) ([]*wire.MsgTx, bool) {
 			for _, in := range tx.TxIn {
 				c := l.Coins[in.PreviousOutPoint]
 				if used[in.PreviousOutPoint] || !((c != nil && c.SpentAt == 0) || made[in.PreviousOutPoint.Hash]) {
+					ok = false
+				}
+			}
+			for _, o := range tx.TxOut {
+				// consensus: 20-byte binding targets only before the warm-up height, 22-byte after
+				if cl, _, _, target := Classify(o.PkScript); cl == ClassBinding && (len(target) == 22) != forks.EnforceMASSIP0002WarmUp(h) {
 					ok = false
 				}
 			}
